@@ -41,6 +41,10 @@ func runC18(w *World, r *Report) {
 	ruleBoolArity(w, r)
 	// an operator's own arity/type errors are lost if the node is inlined as a leaf and never executed
 	ruleKind(w, r)
+	// and/or/xor are boolean folds only if no pass merges operands across different operators: the flattening pass relies
+	// on "bool operator and not `and`" meaning `or`
+	rulePairBool(w, r)
+	ruleFlatten(w, r)
 }
 
 // ---- R-ALIAS ----------------------------------------------------------------
